@@ -12,6 +12,7 @@ import (
 	"time"
 
 	"github.com/MinterTeam/minter-go-node/coreV2/state/accounts"
+	"github.com/tendermint/tendermint/crypto/ed25519"
 	tx "github.com/MinterTeam/minter-go-node/coreV2/transaction"
 	"github.com/MinterTeam/minter-go-node/coreV2/types"
 	abci "github.com/tendermint/tendermint/abci/types"
@@ -156,6 +157,10 @@ type Hist struct {
 	Panics []string
 	Ops    int
 	FFH    map[uint64]bool // heights at which frozen funds may exist
+	begun  bool            // BeginBlock of N.Height has run and the block is not committed yet
+	TmSet  map[types.Pubkey]bool            // Tendermint's validator set (pubkeys) at the last begun height
+	TmPend map[uint64][]abci.ValidatorUpdate // updates taking effect at height
+	PrevSet map[types.Pubkey]bool           // validator set of the previous height (the one that signed LastCommitInfo)
 	DebugHook func(*GenTx)
 }
 
@@ -191,6 +196,12 @@ func NewHist(o HistOpts, sink *Sink) (*Hist, error) {
 	}
 	h.Univ[types.Address{}] = true
 	h.Univ[burnAddr] = true
+	h.TmSet = map[types.Pubkey]bool{}
+	h.TmPend = map[uint64][]abci.ValidatorUpdate{}
+	for _, v := range gen.Validators {
+		h.TmSet[v.PubKey] = true
+	}
+	h.PrevSet = copySet(h.TmSet)
 	h.T = time.Date(2024, 1, 10, 9, 0, 0, 0, time.UTC)
 	// params + initial state
 	sink.Op(fmt.Sprintf("P period=%d expire=%d unbond=%d move=%d jail=%d initial=%d chain=%d", n.Period, n.ExpirePeriod, types.GetUnbondPeriod(), types.GetMovePeriod(), types.GetJailPeriod(), InitialHeight, types.CurrentChainID))
@@ -231,6 +242,13 @@ func (h *Hist) sendFull(op string) {
 	}
 	d := DumpState(&st)
 	h.appExtras(d)
+	if op == "S commit" || op == "S restart" {
+		// C09: what the running node holds in memory must be what it wrote to disk
+		lp := h.liveProjection()
+		for _, dv := range h.divergence(lp, d) {
+			h.S.Op("X divergence " + dv)
+		}
+	}
 	lines := []string{op}
 	lines = append(lines, Delta(h.View, d)...)
 	lines = append(lines, ".")
@@ -281,6 +299,13 @@ func (h *Hist) liveProjection() Dump {
 	}
 	d["app slashed"] = cs.App().GetTotalSlashed().String()
 	d["app rewards"] = h.N.App.GetCurrentRewards().String()
+	for _, v := range cs.Validators().GetValidators() {
+		drop := " live"
+		if v.IsToDrop() {
+			drop = " drop"
+		}
+		d["v "+hexs(v.PubKey[:])] = validatorLine(v.GetTotalBipStake().String(), v.GetAccumReward().String(), v.AbsentTimes, v.PubKey) + drop
+	}
 	// candidates and stakes (slot order), waitlists of the universe, frozen funds at tracked heights
 	for _, c := range cs.Candidates().GetCandidates() {
 		d[fmt.Sprintf("cand %d", c.ID)] = fmt.Sprintf("%s %s %s %s %d %d %d %d %s", hexs(c.PubKey[:]), hexs(c.OwnerAddress[:]), hexs(c.RewardAddress[:]), hexs(c.ControlAddress[:]), c.Commission, c.Status, c.JailedUntil, c.LastEditCommissionHeight, c.GetTotalBipStake())
@@ -303,9 +328,15 @@ func (h *Hist) liveProjection() Dump {
 	h.FFH[h.N.Height+types.GetUnbondPeriod()] = true
 	h.FFH[h.N.Height+types.GetMovePeriod()] = true
 	for fh := range h.FFH {
-		if fh < h.N.Height {
-			delete(h.FFH, fh)
-			continue
+		if fh <= h.N.Height {
+			// funds of a height that has begun are marked deleted in memory (removed from the tree at commit)
+			if fh < h.N.Height {
+				delete(h.FFH, fh)
+				continue
+			}
+			if h.begun {
+				continue
+			}
 		}
 		if m := cs.FrozenFunds().GetFrozenFunds(fh); m != nil {
 			for i, f := range m.List {
@@ -359,7 +390,7 @@ func (h *Hist) sendLive(op string) {
 
 // liveKey: dump keys maintained by the live projection.
 func liveKey(k string) bool {
-	for _, p := range []string{"b ", "n ", "c ", "p ", "cand ", "st ", "wl ", "ff "} {
+	for _, p := range []string{"b ", "n ", "c ", "p ", "cand ", "st ", "wl ", "ff ", "v "} {
 		if strings.HasPrefix(k, p) {
 			return true
 		}
@@ -429,7 +460,9 @@ func (h *Hist) Block() bool {
 	n := h.N
 	height := n.Height + 1
 	t := h.stepTime(height)
-	votes := n.Validators()
+	// Tendermint semantics: updates returned by EndBlock(h) take effect at h+2; LastCommitInfo of block h'
+	// lists the validators of height h'-1.
+	votes := h.commitVotes(height)
 	var vparts []string
 	for i := range votes {
 		a := votes[i].Addr
@@ -448,7 +481,25 @@ func (h *Hist) Block() bool {
 	}
 	var byz []types.TmAddress
 	var bparts []string
-	if h.O.ByzPct > 0 && h.W.Rng.Intn(100) < h.O.ByzPct && len(votes) > 0 {
+	// evidence aimed at validators that have unbonding / moving funds maturing now or next block
+	if h.O.ByzPct > 0 && len(votes) > 0 {
+		for k, v := range h.View {
+			f := strings.Fields(k)
+			if len(f) == 3 && f[0] == "ff" && (f[1] == fmt.Sprint(height) || f[1] == fmt.Sprint(height+1) || f[1] == fmt.Sprint(height-1+types.GetUnbondPeriod())) {
+				vf := strings.Fields(v)
+				if len(vf) == 6 && vf[1] != "-" && h.W.Rng.Intn(100) < 25 {
+					var pk types.Pubkey
+					fmt.Sscanf(vf[1], "%x", &pk)
+					a := tmAddrOf(pk)
+					if len(byz) == 0 {
+						byz = append(byz, a)
+						bparts = append(bparts, fmt.Sprintf("%x", a[:]))
+					}
+				}
+			}
+		}
+	}
+	if len(byz) == 0 && h.O.ByzPct > 0 && h.W.Rng.Intn(100) < h.O.ByzPct && len(votes) > 0 {
 		a := votes[h.W.Rng.Intn(len(votes))].Addr
 		if h.W.Rng.Intn(6) == 0 {
 			h.W.Rng.Read(a[:])
@@ -458,6 +509,7 @@ func (h *Hist) Block() bool {
 	}
 	stopsBefore := n.App.VerifStopCount()
 	pan := n.Begin(height, t, votes, byz)
+	h.begun = true
 	h.Ops++
 	h.S.Op(fmt.Sprintf("B h=%d t=%d votes=%s byz=%s panic=%q", height, t.Unix(), strings.Join(vparts, ","), strings.Join(bparts, ","), pan))
 	if pan != "" {
@@ -523,6 +575,16 @@ func (h *Hist) Block() bool {
 		ups = append(ups, fmt.Sprintf("%x:%d", u.PubKey.GetEd25519(), u.Power))
 	}
 	h.S.Op(fmt.Sprintf("E h=%d updates=%s maxgas=%d", height, strings.Join(ups, ","), er.ConsensusParamUpdates.Block.MaxGas))
+	if len(er.ValidatorUpdates) > 0 {
+		h.TmPend[height+2] = append(h.TmPend[height+2], er.ValidatorUpdates...)
+	}
+	h.sendLive("S end")
+	if h.futureSetEmpty() {
+		// Tendermint refuses an update that empties the validator set: the chain cannot continue
+		h.S.Op(fmt.Sprintf("H h=%d empty-validator-set", height))
+		h.Stats["halt-empty-valset"]++
+		return false
+	}
 	hash, cp := n.Commit()
 	h.Ops++
 	if cp != "" {
@@ -531,6 +593,7 @@ func (h *Hist) Block() bool {
 		return false
 	}
 	h.S.Op(fmt.Sprintf("C h=%d hash=%x", height, hash))
+	h.begun = false
 	h.sendFull("S commit")
 	if h.O.Restarts > 0 && n.Disk && h.W.Rng.Intn(100) < h.O.Restarts {
 		k := 1 + h.W.Rng.Intn(2)
@@ -546,6 +609,131 @@ func (h *Hist) Block() bool {
 		h.sendFull("S restart")
 	}
 	return true
+}
+
+// divergence compares the live projection with the export re-read from disk.
+func (h *Hist) divergence(lp, d Dump) []string {
+	var out []string
+	norm := func(k, v string) string {
+		if strings.HasPrefix(k, "v ") {
+			f := strings.Fields(v)
+			if len(f) > 4 {
+				return strings.Join(f[:4], " ")
+			}
+		}
+		return v
+	}
+	for k, lv := range lp {
+		if !liveKey(k) {
+			continue
+		}
+		dv, ok := d[k]
+		if !ok {
+			if strings.HasPrefix(k, "v ") || strings.HasPrefix(k, "wl ") {
+				// validators export / waitlist text may legitimately lag in format; still report
+			}
+			out = append(out, fmt.Sprintf("%s live=%q disk=absent", k, lv))
+			continue
+		}
+		if norm(k, lv) != norm(k, dv) {
+			out = append(out, fmt.Sprintf("%s live=%q disk=%q", k, lv, dv))
+		}
+	}
+	for k, dv := range d {
+		if !liveKey(k) {
+			continue
+		}
+		if _, ok := lp[k]; ok {
+			continue
+		}
+		f := strings.Fields(k)
+		switch f[0] {
+		case "b", "n":
+			if !h.inUniv(k) {
+				continue
+			}
+		case "wl":
+			if !h.inUniv("b " + f[2]) {
+				continue
+			}
+		case "ff":
+			var fh uint64
+			fmt.Sscan(f[1], &fh)
+			if !h.FFH[fh] {
+				h.FFH[fh] = true
+				continue
+			}
+		}
+		out = append(out, fmt.Sprintf("%s live=absent disk=%q", k, dv))
+	}
+	sort.Strings(out)
+	if len(out) > 8 {
+		out = out[:8]
+	}
+	return out
+}
+
+func (h *Hist) futureSetEmpty() bool {
+	set := copySet(h.TmSet)
+	var hs []uint64
+	for k := range h.TmPend {
+		hs = append(hs, k)
+	}
+	sort.Slice(hs, func(i, j int) bool { return hs[i] < hs[j] })
+	for _, k := range hs {
+		for _, u := range h.TmPend[k] {
+			var pk types.Pubkey
+			copy(pk[:], u.PubKey.GetEd25519())
+			if u.Power == 0 {
+				delete(set, pk)
+			} else {
+				set[pk] = true
+			}
+		}
+	}
+	return len(set) == 0
+}
+
+func copySet(m map[types.Pubkey]bool) map[types.Pubkey]bool {
+	r := map[types.Pubkey]bool{}
+	for k, v := range m {
+		r[k] = v
+	}
+	return r
+}
+
+func tmAddrOf(pk types.Pubkey) types.TmAddress {
+	var a types.TmAddress
+	copy(a[:], ed25519.PubKey(pk[:]).Address().Bytes())
+	return a
+}
+
+// commitVotes advances the emulated Tendermint validator set to `height` and returns the voters of height-1.
+func (h *Hist) commitVotes(height uint64) []Vote {
+	prev := copySet(h.TmSet) // set of height-1 (TmSet is the set of the last begun height)
+	if ups, ok := h.TmPend[height]; ok {
+		for _, u := range ups {
+			var pk types.Pubkey
+			copy(pk[:], u.PubKey.GetEd25519())
+			if u.Power == 0 {
+				delete(h.TmSet, pk)
+			} else {
+				h.TmSet[pk] = true
+			}
+		}
+		delete(h.TmPend, height)
+	}
+	h.PrevSet = prev
+	var pks []types.Pubkey
+	for pk := range prev {
+		pks = append(pks, pk)
+	}
+	sort.Slice(pks, func(i, j int) bool { return string(pks[i][:]) < string(pks[j][:]) })
+	var res []Vote
+	for _, pk := range pks {
+		res = append(res, Vote{Addr: tmAddrOf(pk), Signed: true})
+	}
+	return res
 }
 
 func okstr(c uint32) string {
